@@ -18,7 +18,7 @@ ANY = "any"  # the zero constant is homogeneous of every degree
 SAME = {"np.transpose", "abs", "float", "max", "min", "sum", "np.sum", "np.max", "np.min", "np.abs", "np.absolute", "np.amax", "np.linalg.norm", "np.array", "tuple", "list", "np.mean", "np.ravel", "np.asarray", "np.fabs", "math.fabs", "np.hypot", "math.hypot", "math.fsum"}
 HALF = {"np.sqrt", "math.sqrt"}
 DOUBLE = {"np.square"}
-PRODUCT = {"np.dot", "np.inner", "np.vdot", "np.multiply"}
+PRODUCT = {"np.dot", "np.inner", "np.vdot", "np.multiply", "np.tensordot", "np.outer", "np.matmul", "np.kron"}
 
 
 class Homog:
@@ -144,6 +144,7 @@ class Homog:
         if isinstance(e, (ast.GeneratorExp, ast.ListComp)):
             sub = type(self)(self.r, self.ctx, self.seeds, self.attr, self.use_defs)
             sub.defs = self.defs
+            sub.call_hook = getattr(self, "call_hook", None)
             for g in e.generators:
                 it = g.iter
                 if isinstance(it, ast.Call) and seg(it.func) == "enumerate" and it.args and isinstance(g.target, ast.Tuple) and len(g.target.elts) == 2:
@@ -164,12 +165,19 @@ class Homog:
         if isinstance(e, ast.Subscript):
             return self.deg(e.value)
         if isinstance(e, ast.Call):
+            hook = getattr(self, "call_hook", None)
+            if hook is not None:
+                res = hook(e)
+                if res:
+                    return res[0]
             fn = seg(e.func)
             if fn in SAME and e.args:
                 out = ANY
                 for a in e.args:
                     out = self._add(out, self.deg(a))
                 return out
+            if fn in ("np.zeros", "np.zeros_like", "np.empty"):
+                return ANY
             if fn == "Fraction" and len(e.args) == 2:
                 a, b = self.deg(e.args[0]), self.deg(e.args[1])
                 if a is None or b is None or b == ANY:
@@ -319,6 +327,7 @@ class Flow:
         self.cur_target = None
         self.stores = []  # (receiver text, field, degree set, node)
         self.returns = []  # (degree set, node)
+        self.exit_envs = []  # environments at the returns
         self.cur_env = {}
 
     def degs(self, e, env):
@@ -337,6 +346,7 @@ class Flow:
             else:
                 seeds = c
             h = self.homog_cls(self.r, self.ctx, {k: (v if v != ANY else ("const", 0)) for k, v in seeds.items()}, self.attr, use_defs=False)
+            h.call_hook = lambda call_: self.call_result(call_, 1)
             out.add(h.deg(e))
         return frozenset(out) if len(out) <= self.MAXSET else frozenset({None})
 
@@ -385,6 +395,12 @@ class Flow:
                 self.bind(t, None, env)
         elif isinstance(tgt, ast.Attribute) and src is not None:
             self.stores.append((seg(tgt.value), tgt.attr, self.degs(src, env), tgt))
+        elif isinstance(tgt, ast.Subscript) and isinstance(tgt.value, ast.Name) and src is not None:
+            # an element store: the container takes the degree of what is put into it (a zero-filled container has none of its own)
+            new = self.degs(src, env)
+            old = env.get(tgt.value.id, frozenset())
+            keep = frozenset(d for d in old if d not in (ANY, None))
+            env[tgt.value.id] = (keep | new) if len(keep | new) <= self.MAXSET else frozenset({None})
 
     def bind_loop(self, tgt, it, env):
         if isinstance(it, ast.Call) and seg(it.func) == "zip" and isinstance(tgt, ast.Tuple) and len(tgt.elts) == len(it.args):
@@ -412,6 +428,8 @@ class Flow:
             if isinstance(st.target, ast.Name):
                 self.bind(st.target, ast.BinOp(left=ast.Name(id=st.target.id, ctx=ast.Load()), op=st.op, right=st.value), env)
             return env
+        if isinstance(st, ast.Return):
+            self.exit_envs.append(dict(env))
         if isinstance(st, ast.Return) and st.value is not None:
             self.cur_env = env
             self.cur_target = seg(st, 60)
@@ -454,7 +472,11 @@ class Flow:
 
     def run(self, seeds):
         env = {k: frozenset({v}) for k, v in seeds.items()}
-        self.block(self.fi.node.body, env)
+        last = self.block(self.fi.node.body, env)
+        out = last
+        for e_ in self.exit_envs:
+            out = self.join(out, e_)
+        self.final_env = out or env
         return self.stores
 
 
@@ -679,3 +701,113 @@ def join_homog(r: R, chk, qual: str, rule="JOIN-HOMOG"):
         chk.ob(rule, f"{qual}: both sides of the junction scale alike in the weights of the {side} operand", ok, loc=r.loc(ctx, st),
                detail="" if ok else f"{qual}: in `{found[0][0]}` a part of degree {found[0][1]} and a part of degree {found[0][2]} in the weights of the {side} operand are put together and stored by `{seg(st, 50)}`: multiplying all weights of the {side} operand by a constant (the same curve) moves the two sides of the junction apart, so the weight function is continuous there only by accident and the junction knot keeps more multiplicity than the curve needs (each side has to be scaled BY the other side's junction weight, not by its inverse)",
                func=qual, construct="junction weights scale differently on the two sides")
+
+
+# ------------------------------------------------------------------------------------------------
+# BASIS-HOMOG: the least-squares algebra is dimensionally consistent in each of the two bases
+def basis_homog(r: R, chk, qual: str, rule="BASIS-HOMOG"):
+    """Multiplying every basis function of the target space by a constant c changes nothing about the fitted curve: the Gram
+    matrix GG scales with c^2, the mixed matrix GF and the collocation matrix G with c, the transformation T with 1/c, the error E
+    not at all; the same for the source basis (FF with c^2, GF, F with c, T with c, E with c^2).  Every sum / difference in the
+    function therefore has to add terms of equal degree in each of the two scalings, `Linalg.invert` negates the degree, products
+    add.  `G GG G^T` in the place of `G GG^-1 G^T` has degree 4 instead of 0 and makes the next difference inconsistent."""
+    ctx = r.root(qual)
+    fi = ctx.fi
+    ndec = 0
+    for side in ("new", "old"):
+        holder = {}
+
+        def attr(e, h):
+            if e.attr == "T":
+                return h.deg(e.value)
+            return "skip"
+
+        attr.wants_h = True
+
+        def call_result(call, n, side=side):
+            fl = holder["fl"]
+            fn = seg(call.func)
+            if fn.endswith("eval_rational_nodes") or fn.endswith("eval_spline_nodes"):
+                first = call.args[0] if call.args else None
+                which = "new" if isinstance(first, ast.Name) and first.id.startswith("new") else ("old" if isinstance(first, ast.Name) and first.id.startswith("old") else None)
+                if which is None:
+                    return None
+                return [Fraction(1) if which == side else Fraction(0)] * n
+            if fn.endswith("Linalg.invert") and call.args and n == 1:
+                ds = fl.degs(call.args[0], fl.cur_env)
+                if None in ds:
+                    return None
+                real = {d for d in ds if d != ANY}
+                if len(real) == 1:
+                    return [-next(iter(real))]
+                return [ANY] if not real else None
+            if fn.startswith("NodeSample.") or fn.startswith("IntegratorArray.") or fn == "number_type":
+                return [Fraction(0)] * n
+            return None
+
+        fl = Flow(r, ctx, attr, call_result, homog_cls=_HomogMix)
+        holder["fl"] = fl
+        seeds = {p_: Fraction(0) for p_ in fi.params if p_ not in ("self", "cls")}
+        _HomogMix.MISMATCH, _HomogMix.FLOW = [], fl
+        try:
+            fl.run(seeds)
+        finally:
+            mism = [m_ for m_ in _HomogMix.MISMATCH if not str(m_[0]).startswith("return")]
+            _HomogMix.MISMATCH, _HomogMix.FLOW = [], None
+        # how many matrix names got a decided, non-trivial degree (the analysis did see the algebra)
+        decided = sum(1 for ds, _ in fl.returns for d in ds if d is not None)
+        ndec += 1
+        seen = set()
+        for tgt, a, b in mism:
+            if (tgt, a, b) in seen or (tgt, b, a) in seen:
+                continue
+            seen.add((tgt, a, b))
+            chk.ob(rule, f"{qual}: the terms of `{tgt}` have the same degree in the {side} basis", False, loc=r.loc(ctx, fi.node),
+                   detail=f"{qual}: in `{tgt}` a term of degree {a} and a term of degree {b} in a rescaling of the {side} basis functions are added: rescaling the basis — the same spline space — would change the result, so the expression is not the constrained least-squares formula (a Gram matrix stands where its inverse belongs, or a factor is missing)",
+                   func=qual, construct=f"sum of terms of different degree in the {side} basis")
+        if not seen:
+            chk.ob(rule, f"{qual}: every sum is consistent under a rescaling of the {side} basis", True, loc=r.loc(ctx, fi.node))
+    return ndec
+
+
+# ------------------------------------------------------------------------------------------------
+# RESIDUAL-DEGREE: the quantity compared with the stated distance tolerance is a distance, not its square
+def residual_degree(r: R, chk, qual: str, stated: float, rule="RESIDUAL-DEGREE"):
+    """points come out of `X.eval(...)` with degree 1; norm keeps the degree, inner products add, sqrt halves.  A comparison with
+    a small literal c bounds the distance by c ** (1 / degree): for the stated tolerance the degree has to be 1."""
+    ctx = r.root(qual)
+    fi = ctx.fi
+
+    def call_result(call, n):
+        if isinstance(call.func, ast.Attribute) and call.func.attr in ("eval", "__call__") and n == 1:
+            return [Fraction(1)]
+        return None
+
+    fl = Flow(r, ctx, None, call_result)
+    fl.run({})
+    env = fl.final_env
+    # the loop body is what fills the containers: walk the whole function once more with the final environment for the comparisons
+    h0 = Homog(r, ctx, {})
+    n = 0
+    for c in ast.walk(fi.node):
+        if not (isinstance(c, ast.Compare) and len(c.ops) == 1 and isinstance(c.ops[0], (ast.Lt, ast.LtE, ast.Gt, ast.GtE))):
+            continue
+        for q_, lit in ((c.left, c.comparators[0]), (c.comparators[0], c.left)):
+            cv = h0.const(lit)
+            if cv is None or not (0 < cv < 1e-3) or h0.const(q_) is not None:
+                continue
+            ds = {d for d in fl.degs(q_, env) if d not in (None, ANY)}
+            if len(ds) != 1:
+                chk.note(f"{rule}: {qual}: the degree of `{seg(q_, 40)}` could not be computed: not decided")
+                continue
+            d = next(iter(ds))
+            if d == 0:
+                continue
+            n += 1
+            eff = cv ** (1 / float(d))
+            ok = abs(math.log10(eff) - math.log10(stated)) < 0.05
+            chk.ob(rule, f"{qual}: `{seg(c, 50)}` bounds the distance |A(t) - B(u)| by {stated:g}", ok, loc=r.loc(ctx, c),
+                   detail="" if ok else f"{qual}: `{seg(q_, 40)}` is of degree {d} in the point difference (a squared distance) but is compared with {cv:g}: pairs whose points are up to {eff:.2g} apart are accepted as intersections instead of {stated:g} — two curves that pass within a thousandth of each other without meeting are reported to meet",
+                   func=qual, construct=f"degree-{d} residual compared with {cv:g}")
+    chk.floor(rule, f"comparisons of the residual with a literal tolerance in {qual}", n, 1)
+    return n
